@@ -58,8 +58,13 @@ def layouts(rng, s, quick):
         if not quick:
             for p in itertools.islice(itertools.permutations(fs), 6):
                 out.append(('files-perm', [('F', f) for f in p]))
-    if rng.random() < 0.3:
-        out.append(('with-missing', [('F', f) for f in fs] + [('M',)]))
+    if rng.random() < 0.4:
+        # the missing path first, last or in the middle: every position must make the command fail
+        args = [('F', f) for f in fs]
+        args.insert(rng.choice([0, 0, len(args), len(args) // 2]), ('M',))
+        out.append(('with-missing', args))
+    if rng.random() < 0.15 and fs:
+        out.append(('with-missing-then-dir', [('M',), ('D', fs)]))
     if rng.random() < 0.2 and fs:
         out.append(('dir-with-subdir', [('D', fs + [{'name': 'sub', 'kind': 'subdir', 'data': None}])]))
     return out
